@@ -25,10 +25,15 @@ def gen_c01(rng, n_ops):
     locs = locs_for(rng)
     ops, ver, held = [], 1, False
     for _ in range(n_ops):
-        a = rng.choices(["ins", "get", "gof", "rm", "hold", "unhold", "wait", "memevict", "restart", "sins"],
-                        [30, 22, 10, 10, 5, 6, 8, 4, 3, 2])[0]
+        a = rng.choices(["ins", "get", "gof", "rm", "hold", "unhold", "wait", "memevict", "restart", "sins", "clear"],
+                        [30, 22, 10, 10, 5, 6, 8, 4, 3, 2, 2])[0]
         k = rng.randrange(3)
-        size = rng.choice([16, 64, 100, 3000, 9000, 20000, 61000])
+        # (65536-byte blocks with a 4 KiB index: an entry of more than 61440 bytes cannot be stored on disk)
+        size = rng.choice([16, 64, 100, 3000, 9000, 20000, 61000, 61000, 62000, 100000])
+        if a == "clear":
+            if not held:
+                ops.append("clear")
+            continue
         if a == "ins":
             loc = locs[k]
             ops.append(f"ins k={k} ver={ver} size={size}" + (f" loc={loc}" if loc != "default" else "")); ver += 1
